@@ -2,7 +2,7 @@ CONSTANTS MutPay = {5}
   MutVals = {"zero"}
   MaxMuts = 1
   MutCuts = "none"
-  Lens = {0, 13, 14, 17, 18, 22, 34, 42}
+  Lens = {0, 13, 14, 17, 18, 22, 34}
 SPECIFICATION SpecAny
 INVARIANT TypeOKAny
 INVARIANT SoundAny
